@@ -22,9 +22,9 @@ type Req struct {
 	Boom   bool
 	Zero   int64
 	HoldUs int64
-	List   []int64 // Id, Id+1, Id+2
-	Fail2  bool    // a member of q4's conc block fails
-	Dirty  bool    // rule qd assigns a local and then faults
+	List   []int64          // Id, Id+1, Id+2
+	Fail2  bool             // a member of q4's conc block fails
+	Dirty  bool             // rule qd assigns a local and then faults
 	Tab    map[string]int64 // {"k": Id}: read with a string-literal key and with a variable key
 }
 
@@ -252,26 +252,38 @@ type done struct {
 
 // Storm is one pool scenario.
 type Storm struct {
-	k        *fw.Case
-	r        *rand.Rand
-	min, max int64
-	pool     *engine.GenginePool
-	t        *trace.Target
-	gate     *Gate
-	shadow   *Shadow
-	seq      int64
-	nextID   int64
-	mu       sync.Mutex
-	findings []StormFinding
-	dones    []*done
-	obsCalls int64
-	faults   bool     // set during the storm phase: requests may carry Fail2 / Dirty
-	goidReq  sync.Map // goroutine id -> request id (only to learn which instance a request got)
-	reqTag   sync.Map // request id -> instance tag
+	putBarrier, putArrived int32 // rendezvous of hand-backs at the pool.put.scheduled hook point
+	k                      *fw.Case
+	r                      *rand.Rand
+	min, max               int64
+	pool                   *engine.GenginePool
+	t                      *trace.Target
+	gate                   *Gate
+	shadow                 *Shadow
+	seq                    int64
+	nextID                 int64
+	mu                     sync.Mutex
+	findings               []StormFinding
+	dones                  []*done
+	obsCalls               int64
+	faults                 bool     // set during the storm phase: requests may carry Fail2 / Dirty
+	goidReq                sync.Map // goroutine id -> request id (only to learn which instance a request got)
+	reqTag                 sync.Map // request id -> instance tag
 }
 
 // Hook feeds the shadow and remembers which instance the calling request was given.
 func (s *Storm) Hook(point string, tag int64) {
+	if point == "pool.put.scheduled" {
+		// rendezvous rounds: the hand-backs of one round leave this point together (or after 2 ms), so that
+		// what follows it runs on several cores within the same nanoseconds; nothing is decided here
+		if n := atomic.LoadInt32(&s.putBarrier); n > 0 {
+			arrived := atomic.AddInt32(&s.putArrived, 1)
+			deadline := time.Now().Add(2 * time.Millisecond)
+			for arrived < n && time.Now().Before(deadline) {
+				arrived = atomic.LoadInt32(&s.putArrived)
+			}
+		}
+	}
 	if point == "pool.get.locked" {
 		if id, ok := s.goidReq.Load(goid()); ok {
 			s.reqTag.Store(id, tag)
@@ -813,17 +825,21 @@ func (s *Storm) Run(clients, perClient int, faults bool) {
 			s.find("cap", "double-use", e, nil)
 		}
 	}
-	// phase 2b (a third of the storms): rounds in which max requests are released at the same instant, so
+	// phase 2b (two thirds of the storms): rounds in which max requests are released at the same instant, so
 	// that their hand-backs collide; an instance lost in such a collision shows in phase 3
-	if s.r.Intn(3) == 0 {
-		rounds := 20 + s.r.Intn(30)
+	if s.r.Intn(3) > 0 {
+		rounds := 40 + s.r.Intn(80)
 		for i := 0; i < rounds; i++ {
 			wgr, okr := s.saturate(max, "rendezvous round")
+			atomic.StoreInt32(&s.putArrived, 0)
+			atomic.StoreInt32(&s.putBarrier, int32(max))
 			s.gate.Release()
 			if !okr || !waitDone(wgr, progressBound) {
+				atomic.StoreInt32(&s.putBarrier, 0)
 				s.find("cap", "waiters-stuck", "requests of a rendezvous round did not complete", dump())
 				return
 			}
+			atomic.StoreInt32(&s.putBarrier, 0)
 		}
 		k.Count("rendezvous_rounds", int64(rounds))
 	}
